@@ -554,6 +554,8 @@ def run(ctx, rep, tier="quick"):
     s5_pair(ctx, rep)
     s5_pending_only_if_continues(ctx, rep)
     s6b(ctx, rep)
+    from . import c03
+    c03.s5c(ctx, rep, clause="S5")
     s6(ctx, rep)
     s7(ctx, rep)
     s8(ctx, rep)
